@@ -209,6 +209,17 @@ def fp_drpcmetadata_metadata_Decode : List String :=
     "id:nil", "=out", "id:out", "call:make", "id:make", "id:string", "id:string", "=out", "index", 
     "id:out", "call:string", "id:string", "id:key", "call:string", "id:string", "id:value", "return", 
     "id:out", "id:nil"]
+def fp_drpcmetadata_metadata_AddPairs : List String :=
+  ["for", "id:key", "id:val", "id:metadata", "=ctx", "id:ctx", "call:Add", "id:Add", "id:ctx", 
+    "id:key", "id:val", "return", "id:ctx"]
+def fp_drpcmetadata_metadata_Add : List String :=
+  ["=metadata", "=ok", "id:metadata", "id:ok", "call:Get", "id:Get", "id:ctx", "if", "u!", "id:ok", 
+    "=metadata", "id:metadata", "call:make", "id:make", "id:string", "id:string", "=ctx", "id:ctx", 
+    "call:context.WithValue", "id:context", "id:WithValue", "id:ctx", "id:metadataKey", "id:metadata", 
+    "=metadata", "index", "id:metadata", "id:key", "id:value", "return", "id:ctx"]
+def fp_drpcmetadata_metadata_Get : List String :=
+  ["=metadata", "=ok", "id:metadata", "id:ok", "call:ctx.Value", "id:ctx", "id:Value", "id:metadataKey", 
+    "id:string", "id:string", "return", "id:metadata", "id:ok"]
 def fp_drpchttp_context_buildContext : List String :=
   ["for", "id:_", "id:entry", "id:entries", "id:key", "id:value", "id:string", "id:err", "id:error", 
     "=index", "id:index", "call:strings.IndexByte", "id:strings", "id:IndexByte", "id:entry", "61", 
